@@ -342,4 +342,78 @@ def buildQuotation (arg0 : Arg0) (fileExists : Bool) (filepath : Str) (lines : L
     | .error x => .error x
     | .ok q => .ok q.build
 
+/-! ## The request boundary of the interactive mode: bin/io.py `tty` (:25-46) and the quit test of Interactive.run (bin/transpile.py:416) -/
+
+/-- Python value of a generated quit test over the request `lines`: `len`, `==` and truth are total, `lines[i]` raises
+    IndexError outside the list, `and` / `or` evaluate the right operand only when the left one does not decide -/
+def evalTest (lines : List Str) : ReqTest → Except Exc Bool
+  | .lenEq n => .ok (lines.length == n)
+  | .itemEq i s => match pyIndex lines i with
+    | .ok l => .ok (l == s)
+    | .error x => .error x
+  | .nonEmpty => .ok (!lines.isEmpty)
+  | .not a => match evalTest lines a with
+    | .ok b => .ok (!b)
+    | .error x => .error x
+  | .and a b => match evalTest lines a with
+    | .ok true => evalTest lines b
+    | .ok false => .ok false
+    | .error x => .error x
+  | .or a b => match evalTest lines a with
+    | .ok true => .ok true
+    | .ok false => evalTest lines b
+    | .error x => .error x
+
+/-- one pass of the loop body for the request `lines` (transpile.py:415-428): the quit test stands OUTSIDE the inner `try`, so an
+    exception of the test itself meets the outer handler only -/
+def stepRequest (test : ReqTest) (lines : List Str) (result render : Except Exc Unit) : Status :=
+  match evalTest lines test with
+  | .error x => outer x
+  | .ok true => .quit
+  | .ok false => step (.code result render)
+
+/-- what `tty(prompt)` does in one pass: hands over a request (with the outcome of serving it / of printing its error) or is interrupted -/
+inductive Request where
+  | lines (ls : List Str) (result : Except Exc Unit) (render : Except Exc Unit)
+  | interrupt
+
+def stepReq (test : ReqTest) : Request → Status
+  | .lines ls r d => stepRequest test ls r d
+  | .interrupt => step .interrupt
+
+/-- final status and number of requests consumed -/
+def runRequests (test : ReqTest) : List Request → Status × Nat
+  | [] => (.running, 0)
+  | q :: qs =>
+    match stepReq test q with
+    | .running => let r := runRequests test qs; (r.1, r.2 + 1)
+    | s => (s, 1)
+
+/-- bin/io.py:37-46 the `while True` of `tty`: `keys` are the results of the coming `readline()` calls, `acc` is `lines`;
+    `none`: the keyboard has nothing more (the call is still waiting) -/
+def ttyLoop (quitLine : Str) (quitResult : List Str) : List Str → List Str → Option (List Str × List Str)
+  | [], _ => none
+  | l :: ks, acc =>
+    if l.isEmpty then some (acc, ks)                       -- `if not line: break` … `return lines`
+    else if l = quitLine then some (quitResult, ks)        -- `elif line == 'exit': return ['exit']`
+    else ttyLoop quitLine quitResult ks (acc ++ [l])       -- `lines.append(line)`
+
+/-- `tty(prompt)` on the generated constants → (request, keys left) -/
+def tty (keys : List Str) : Option (List Str × List Str) := ttyLoop ttyQuitLine ttyQuitResult keys []
+
+/-- a whole session for a keyboard transcript (`oc` = outcome of serving a request and of printing its error):
+    final status and number of `tty` calls started; the fuel is never exhausted for `keys.length + 1` (every call eats a key) -/
+def runKeysFuel (test : ReqTest) (oc : List Str → Except Exc Unit × Except Exc Unit) : Nat → List Str → Status × Nat
+  | 0, _ => (.running, 0)
+  | f + 1, keys =>
+    match tty keys with
+    | none => (.running, 1)
+    | some (req, rest) =>
+      match stepRequest test req (oc req).1 (oc req).2 with
+      | .running => let r := runKeysFuel test oc f rest; (r.1, r.2 + 1)
+      | s => (s, 1)
+
+def runKeys (test : ReqTest) (oc : List Str → Except Exc Unit × Except Exc Unit) (keys : List Str) : Status × Nat :=
+  runKeysFuel test oc (keys.length + 1) keys
+
 end Tranp.Errors
